@@ -257,15 +257,36 @@ def check(run):
     np_ = prog.fn("decoders.network.normalize_path")
     rets = [n for n in own_nodes(np_.node) if isinstance(n, ast.Return)]
     ok_dp = False
+    # the kept-segment stack and the segment list may carry any name: the stack is what the '..' arm pops, the segments what the loop walks
+    ren_dp = {}
+    for n_ in own_nodes(np_.node):
+        if isinstance(n_, ast.Call) and isinstance(n_.func, ast.Attribute) and n_.func.attr == "pop" and not n_.args and isinstance(n_.func.value, ast.Name):
+            ren_dp[n_.func.value.id] = "dotless"
+        if isinstance(n_, ast.Delete) and len(n_.targets) == 1 and isinstance(n_.targets[0], ast.Subscript) and isinstance(n_.targets[0].value, ast.Name):
+            ren_dp[n_.targets[0].value.id] = "dotless"
+    for n_ in np_.node.body:
+        if isinstance(n_, ast.For) and isinstance(n_.iter, ast.Name) and any(isinstance(x, (ast.Call, ast.Delete)) for x in ast.walk(n_)):
+            ren_dp[n_.iter.id] = "segments"
     for r in rets:
         if isinstance(r.value, ast.Tuple) and len(r.value.elts) == 2 and isinstance(r.value.elts[1], ast.IfExp):
             lab = r.value.elts[1]
-            az = G.Atomizer(is_int=lambda e: True)
-            ok_dp = prog.try_fold(nm, lab.body) == "url.dotpath" and prog.try_fold(nm, lab.orelse) == "" and \
-                G.equivalent(az.formula(lab.test), az.formula(common.spec_expr("len(dotless) < len(segments)")))[0]
+            az = G.Atomizer(is_int=lambda e: True, rename=ren_dp)
+            want_dp = az.formula(common.spec_expr("len(dotless) < len(segments)"))
+            if prog.try_fold(nm, lab.body) == "url.dotpath" and prog.try_fold(nm, lab.orelse) == "":
+                ok_dp = G.equivalent(az.formula(lab.test), want_dp, assuming=az.formula(common.spec_expr("len(dotless) <= len(segments)")))[0]
+            elif prog.try_fold(nm, lab.body) == "" and prog.try_fold(nm, lab.orelse) == "url.dotpath":
+                ok_dp = G.equivalent(G.f_not(az.formula(lab.test)), want_dp, assuming=az.formula(common.spec_expr("len(dotless) <= len(segments)")))[0]
     run.ob("R4-labels", "decoders.network.normalize_path/dotpath-guard", ok_dp, w(np_.node), "labelled url.dotpath exactly when a segment was removed", "", mech="truth table with integer theory")
     # root preservation: the '..' arm's pop guard over the four shapes of the segment stack
-    pops = [n for n in own_nodes(np_.node) if isinstance(n, ast.Call) and isinstance(n.func, ast.Attribute) and n.func.attr == "pop"]
+    class _Pop:      # `x.pop()` and `del x[-1]` both drop the last kept segment
+        def __init__(self, node, stack):
+            self.node, self.stack, self.lineno = node, stack, node.lineno
+            self.func = ast.Attribute(value=stack, attr="pop", ctx=ast.Load())
+            self._parent = getattr(node, "_parent", None)
+    pops = [n for n in own_nodes(np_.node) if isinstance(n, ast.Call) and isinstance(n.func, ast.Attribute) and n.func.attr == "pop" and not n.args]
+    dels = [n for n in own_nodes(np_.node) if isinstance(n, ast.Delete) and len(n.targets) == 1 and isinstance(n.targets[0], ast.Subscript) and norm_src(n.targets[0].slice) == "-1"]
+    if not pops and len(dels) == 1:
+        pops = [_Pop(dels[0], dels[0].targets[0].value)]
     ok_root = False
     det = "no pop in normalize_path"
     if len(pops) == 1:
@@ -311,13 +332,37 @@ def check(run):
     # windows dotpath label
     fw = prog.fn("decoders.path.find_windows_path")
     pm = fw.module
-    ok_w = False
-    for n in own_nodes(fw.node):
-        if isinstance(n, ast.IfExp) and prog.try_fold(pm, n.body) == "windows.dotpath":
-            env = common.block_env(fw.node.body[0].body if isinstance(fw.node.body[0], ast.For) else [], n) or {}
-            src = norm_src(n.test)
-            ok_w = prog.try_fold(pm, n.orelse) == "" and src in ("len(path) < length",) 
-    run.ob("R4-labels", "decoders.path.find_windows_path/dotpath-guard", ok_w, f"{pm.rel}:{fw.lineno}", "labelled windows.dotpath exactly when normalisation shortened the path", "", mech="expression match")
+    ok_w, det_w = False, "no conditional windows.dotpath label found"
+    cand_fns = [fw] + [f_ for q_, f_ in pm.funcs.items() if q_.startswith("_") and not isinstance(f_.node, ast.Lambda)]
+    for fn_w, n in [(f_, n_) for f_ in cand_fns for n_ in own_nodes(f_.node)]:
+        lab_t = prog.try_fold(pm, n.body) if isinstance(n, ast.IfExp) else None
+        lab_f = prog.try_fold(pm, n.orelse) if isinstance(n, ast.IfExp) else None
+        if isinstance(n, ast.IfExp) and isinstance(lab_t, str) and isinstance(lab_f, str) and {lab_t, lab_f} == {"windows.dotpath", ""}:
+            # the assignments of the enclosing block, in order, each read through the ones before it (the path variable is re-assigned)
+            stmt_ = common.enclosing_stmt(n)
+            par_ = getattr(stmt_, "_parent", None)
+            blk_ = next((getattr(par_, f_) for f_ in ("body", "orelse") if isinstance(getattr(par_, f_, None), list) and stmt_ in getattr(par_, f_)), [])
+            env_ = {}
+            for st_ in blk_:
+                if st_ is stmt_:
+                    break
+                if isinstance(st_, ast.Assign) and len(st_.targets) == 1 and isinstance(st_.targets[0], ast.Name):
+                    env_[st_.targets[0].id] = common.inline(st_.value, env_)
+            test_ = common.inline(n.test, env_)
+            raws = [f"{m_}" for m_ in ("match.group()", "match.group(0)", "match[0]")]
+            loop_var = next((p_.target.id for p_ in common.parents(n) if isinstance(p_, ast.For) and isinstance(p_.target, ast.Name)),
+                            fn_w.params[0] if fn_w is not fw and fn_w.params else "match")
+            raws = [r_.replace("match", loop_var) for r_ in raws]
+            rw = [(f"len(ntpath.normpath({r_}))", "NORMLEN") for r_ in raws] + [(f"len({r_})", "RAWLEN") for r_ in raws]
+            az_w = G.Atomizer(is_int=lambda e: True, rewrite=rw)
+            f_ = az_w.formula(test_)
+            if lab_t == "":
+                f_ = G.f_not(f_)
+            ok_w = G.equivalent(f_, G.Atomizer(is_int=lambda e: True).formula(common.spec_expr("NORMLEN < RAWLEN")),
+                                assuming=G.Atomizer(is_int=lambda e: True).formula(common.spec_expr("NORMLEN <= RAWLEN")))[0]
+            det_w = f"label test reads `{norm_src(test_)}`"
+    run.ob("R4-labels", "decoders.path.find_windows_path/dotpath-guard", ok_w, f"{pm.rel}:{fw.lineno}", "labelled windows.dotpath exactly when normalisation shortened the path", det_w,
+           mech="sequential inlining of the block's assignments + truth table with integer theory")
 
     # ------------------------------------------------------------------ R5 windows children
     hits, interp, _n = A.run(fw)
@@ -383,8 +428,14 @@ def presence(o, s):
 
 def _eval(e, env):
     if isinstance(e, ast.BoolOp):
-        vals = [_eval(v, env) for v in e.values]
-        return all(vals) if isinstance(e.op, ast.And) else any(vals)
+        v = None
+        for x in e.values:            # short-circuit, like Python: `kept and kept[0]`
+            v = _eval(x, env)
+            if isinstance(e.op, ast.And) and not v:
+                return v
+            if isinstance(e.op, ast.Or) and v:
+                return v
+        return v
     if isinstance(e, ast.UnaryOp) and isinstance(e.op, ast.Not):
         return not _eval(e.operand, env)
     if isinstance(e, ast.Name):
